@@ -97,7 +97,11 @@ Pool == <<
              [ext |-> Sq(4, 4, 3), holes |-> << Sq(5, 5, 1) >>] >>), MPoly(<<>>),
     Rc(<<3, 1>>, <<0, 4>>), Rc(<<2, 2>>, <<2, 2>>),
     Tri(<<0, 0>>, <<4, 1>>, <<1, 3>>), Tri(<<2, 2>>, <<5, 2>>, <<2, 6>>),     \* stored order = ccw input order
-    GC(<<>>), GC(<< Pt(<<9, 9>>), GC(<< LS(<< <<8, 0>>, <<8, 1>> >>), GC(<<>>) >>) >>)
+    GC(<<>>), GC(<< Pt(<<9, 9>>), GC(<< LS(<< <<8, 0>>, <<8, 1>> >>), GC(<<>>) >>) >>),
+    \* long members (size-gated code paths)
+    LS([i \in 1 .. 300 |-> <<i \div 2, (i - 1) \div 2>>]),
+    MPt([i \in 1 .. 300 |-> <<(i * 7) % 13, (i * 11) % 17>>]),
+    MPoly([i \in 1 .. 150 |-> [ext |-> Sq(3 * i, i % 5, 2), holes |-> IF i % 3 = 0 THEN << Sq(3 * i + 1, (i % 5) + 1, 1) >> ELSE <<>>]])
 >>
 NP == Len(Pool)
 
@@ -117,6 +121,8 @@ Case(g, f) ==
      dim |-> Dim(g), bdim |-> BDim(g), empty |-> IsEmptyG(g)]
 Next == /\ ~done /\ done' = TRUE /\ m1' = m1
         /\ m2' \in 0 .. NP /\ m3' \in 0 .. NP /\ (m2' = 0 => m3' = 0)
+        \* the three long members appear alone, or first in a collection with the first one / two pool entries
+        /\ m2' <= NP - 3 /\ m3' <= NP - 3 /\ (m1 > NP - 3 => (m2' <= 1 /\ m3' \in {0, 2} /\ (m3' = 2 => m2' = 1)))
         /\ fn' \in Fn
         /\ PrintT(<<"CASE", ToJson(Case(Tree(m1, m2', m3'), fn'))>>)
 Spec == Init /\ [][Next]_vars
